@@ -1085,3 +1085,143 @@ def _native_roundtrip(tier="quick", seed=0):
 
 
 JOBS = {"C01.native_roundtrip": _native_roundtrip}
+
+
+# ---------------------------------------------------------------------------------------------------------
+# relationship items: every relationship written exactly once with its own id, type, mode and target reference
+
+
+def _replay_rels_xml(model, rec):
+    from lxml import etree
+
+    from pptx.opc.package import Part, _Relationships
+    from pptx.opc.packuri import PackURI
+
+    a = Part(PackURI("/x/a.xml"), "t", None, b"")
+    r = _Relationships("/x")
+    want = {}
+    for k, (rid, ext) in enumerate([("rId10", False), ("rId2", False), ("rIdImage3", False), ("foo", True), ("rId07", False), ("rId", True), ("R5", False)]):
+        from pptx.opc.package import _Relationship
+
+        tgt = "http://e/%d" % k if ext else a
+        r._rels[rid] = _Relationship("/x", rid, "http://t/%d" % k, "External" if ext else "Internal", tgt)
+        want[rid] = ("http://t/%d" % k, "External" if ext else None, "http://e/%d" % k if ext else "a.xml")
+    root = etree.fromstring(r.xml)
+    got = {e.get("Id"): (e.get("Type"), e.get("TargetMode"), e.get("Target")) for e in root}
+    if got != want or len(root) != len(want):
+        return {"confirmed": True, "witness_class": "rels-xml", "detail": "relationships %s written as %s" % (sorted(want), sorted(got)), "input": sorted(want)}
+    return {"confirmed": False, "detail": "seven relationships with assorted ids written once each"}
+
+
+@contract("C01", "C01.opc.package._Relationships.xml", replay=_replay_rels_xml, timeout_ms=60000)
+def _rels_xml(c):
+    """for any number of relationships with arbitrary ids: add_rel is called exactly once per relationship, with that
+    relationship's own id, type, target reference and mode (whatever order sorted() chooses), and the bytes returned are those
+    of the element they were added to."""
+    from pptx.opc.package import _Relationships
+
+    n = c.int("n_rels")
+    c.requires(n >= 0)
+    RID = z3.Function("RID_AT", z3.IntSort(), z3.StringSort())
+    TYPE_OF = z3.Function("TYPE_BY_RID", z3.StringSort(), z3.StringSort())
+    REF_OF = z3.Function("TARGET_REF_BY_RID", z3.StringSort(), z3.StringSort())
+    EXT_OF = z3.Function("EXTERNAL_BY_RID", z3.StringSort(), z3.BoolSort())
+    i, k = z3.Ints("xi xk")
+    c.requires(z3.ForAll([i, k], z3.Implies(z3.And(0 <= i, i < k, k < n), RID(i) != RID(k))))
+    for q in range(2):
+        c.input("rId%d" % q, RID(z3.IntVal(q)))
+    STARTS = z3.Function("KEY_STARTS_WITH_rId", z3.IntSort(), z3.BoolSort())
+    DIGITS = z3.Function("KEY_TAIL_IS_DIGITS", z3.IntSort(), z3.BoolSort())
+    NUM = z3.Function("KEY_TAIL_NUMBER", z3.IntSort(), z3.IntSort())
+
+    class _Key:
+        """relationship id j as the sort key computation sees it: its text RID(j); startswith / [3:].isdigit() / int() are
+        total functions of the text whose values do not matter here (only that sorted() permutes)"""
+
+        __pyvc_symbolic__ = True
+
+        def __init__(self, j, tail=False):
+            self.j, self.tail = j, tail
+            self.gkey = RID(j)
+
+        def sym_getattr(self, it, name):
+            if name == "startswith" and not self.tail:
+                return GhostFn(lambda i2, a, k: STARTS(self.j), "str.startswith")
+            if name == "isdigit" and self.tail:
+                return GhostFn(lambda i2, a, k: DIGITS(self.j), "str.isdigit")
+            raise Exception("ghost key asked for %s" % name)
+
+        def sym_getitem(self, it, idx):
+            return _Key(self.j, tail=True)
+
+        def sym_int(self, it):
+            return NUM(self.j)
+
+    c.path.assumed.add("str.startswith / slicing / isdigit / int on a relationship id are total functions of its text (values irrelevant to the contract)")
+    keys = SSeq(n, lambda j: _Key(j), name="keys()")
+
+    class _Store:
+        __pyvc_symbolic__ = True
+
+        def sym_getitem(self, it, key):
+            from pyvc.gsets import str_key
+
+            z = str_key(key)
+            return SObj(None, "rel", rId=SStr([Atom("rId", zs=z)]), reltype=SStr([Atom("reltype", zs=TYPE_OF(z))]),
+                        target_ref=SStr([Atom("target_ref", zs=REF_OF(z))]), is_external=EXT_OF(z))
+
+        def sym_iter(self, it):
+            return keys
+
+    log = {"cnt": z3.IntVal(0), "RID": z3.Array("L_RID0", z3.IntSort(), z3.StringSort()), "TYPE": z3.Array("L_TYPE0", z3.IntSort(), z3.StringSort()),
+           "REF": z3.Array("L_REF0", z3.IntSort(), z3.StringSort()), "EXT": z3.Array("L_EXT0", z3.IntSort(), z3.BoolSort())}
+
+    class _Log:
+        def havoc(self, tag):
+            log["cnt"] = z3.Int("L_cnt_%s" % tag)
+            for nm, srt in (("RID", z3.StringSort()), ("TYPE", z3.StringSort()), ("REF", z3.StringSort()), ("EXT", z3.BoolSort())):
+                log[nm] = z3.Array("L_%s_%s" % (nm, tag), z3.IntSort(), srt)
+
+    c.path.ghost.setdefault("ghost_state", []).append(_Log())
+
+    def add_rel(it, a, kw):
+        from pyvc.gsets import str_key
+
+        rid, rt, ref, ext = a
+        p = log["cnt"]
+        log["RID"], log["TYPE"], log["REF"] = z3.Store(log["RID"], p, str_key(rid)), z3.Store(log["TYPE"], p, str_key(rt)), z3.Store(log["REF"], p, str_key(ref))
+        log["EXT"] = z3.Store(log["EXT"], p, ext if z3.is_expr(ext) else z3.BoolVal(bool(ext)))
+        log["cnt"] = p + 1
+
+    the_bytes = SObj(None, "rels_xml_bytes")
+    elm = SObj(None, "rels_elm", add_rel=GhostFn(add_rel, "add_rel"), xml_file_bytes=the_bytes)
+    c.summaries["pptx.opc.oxml:CT_Relationships.new"] = lambda it, a, kw: elm
+    store = _Store()
+    rels = SObj(_Relationships, "rels", _rels=store, keys=GhostFn(lambda it, a, kw: keys, "keys"))
+    perm = {}
+
+    def inv(env, kk):
+        P = c.path.ghost["permuted"][-1]
+        perm["P"] = P
+        a = z3.Int("la")
+        z = lambda q: RID(P.org(q))
+        return z3.And(log["cnt"] == kk,
+                      z3.ForAll([a], z3.Implies(z3.And(0 <= a, a < kk),
+                                                z3.And(log["RID"][a] == z(a), log["TYPE"][a] == TYPE_OF(z(a)), log["REF"][a] == REF_OF(z(a)), log["EXT"][a] == EXT_OF(z(a))))))
+
+    c.loop_specs[("pptx.opc.package:_Relationships.xml", 0)] = invariant_loop("C01.opc.package._Relationships.xml.loop0", [], inv)
+    out = c.run(_Relationships.xml.fget, rels)
+    if out.raised:
+        c.fails("never_raises", "raised %s" % out.exc)
+        return
+    P = perm.get("P")
+    c.ensures("post.sorted_view_was_used", P is not None)
+    if P is None:
+        return
+    c.ensures("post.one_element_per_relationship", z3.And(log["cnt"] == P.length_term, P.length_term == n))
+    j = z3.Int("fj")
+    c.ensures("post.every_relationship_written_with_its_own_fields",
+              z3.ForAll([j], z3.Implies(z3.And(0 <= j, j < n),
+                                        z3.And(0 <= P.pos(j), P.pos(j) < log["cnt"], log["RID"][P.pos(j)] == RID(j), log["TYPE"][P.pos(j)] == TYPE_OF(RID(j)),
+                                               log["REF"][P.pos(j)] == REF_OF(RID(j)), log["EXT"][P.pos(j)] == EXT_OF(RID(j))))))
+    c.ensures("post.returns_the_bytes_of_that_element", out.value is the_bytes)
